@@ -2,7 +2,8 @@
     cache_history : cfg doc streams appf imgc flat calls   ->  one field per call (o<dec> | e<dec> | p | f)
     schedule      : ccfg doc programs schedule             ->  one field per thread, or Panic 99 = process abort
                     (programs: one row of references per thread, every call is get::<Node<0>>)
-    tschedule     : the same with typed programs: one row "ty r ty r …" per thread *)
+    tschedule     : the same with typed programs: one row "ty r ty r …" per thread; an item "9 i" loads lazy cell i
+                    of the shared holder, whose entries "ty r ty r …" are the optional fifth field *)
 From PdfV Require Import Base.Prelude Gen.Generated Cache.Model Cache.Node Cache.Conc.
 
 Definition field (fs : list bytes) (i : nat) : bytes := nth i fs [].
@@ -83,7 +84,9 @@ Definition run_sched_gen (fs : list bytes) (progs : list (list tcall)) : res (li
   let sched := map N.to_nat (nums (field fs 3)) in
   let n := length progs in
   let prog := node_prog doc in
-  let g := complete c prog SCHED_FUEL n (run_sched c prog (ginit progs) sched) in
+  let ctab := pairs (nums (field fs 4)) in                    (* the holder's /L entries: ty r ty r … *)
+  let cells := fun i => nth (N.to_nat i) ctab (0, 0) in
+  let g := complete c prog cells SCHED_FUEL n (run_sched c prog cells (ginit cells progs) sched) in
   if aborted g then Panic 99
   else if negb (all_finished g n) && (match first_enabled c g n O with Some _ => true | None => false end) then OutOfFuel
   else Ok (map (show_thread g) (seq 0 n)).
